@@ -133,7 +133,7 @@ theorem pending_closedB (N : Nat) : ClosedB (fun x => pendingTotal x ≤ N) wher
     have e : bq ((allEmpty s).1.setLg i (fun l => { l with erased := true })) = bq s := bq_allEmpty s
     rw [pendingTotal_of_bq e]; exact h
   reap := fun _ _ h _ _ => h
-  flagRemoval := fun _ _ _ h => h
+  flagRemoval := fun _ _ _ _ _ h _ _ => h
   flushSinks := fun s h => by rw [pendingTotal_of_bq (bq_flushSinks s)]; exact h
   readPrep := fun s i h => by
     rw [pendingTotal_of_bq (by unfold readPrepSt; exact bq_setTh _ _ _ (fun _ => rfl) (fun _ => rfl))]; exact h
